@@ -65,6 +65,13 @@ contract(T + ".__init__", "C03", is_init=True, params={"tools": "none", "allowed
                   "starts-without-tools": "len(self.tools) == 0"})
 
 
+# the schema export the tool loop assumes total: its own totality obligation (tools typed as SimpleTool: a name, a description, a schema)
+shape("MitochondriaS", tools="dict:str,obj:SimpleTool", silent="bool")
+contract(F + "::Mitochondria.export_tool_schemas", "C03", self_type="MitochondriaS", raises=[], modifies=[],
+         loops={"for (name, tool) in self.tools.items()": {"invariant": ["True"], "types": {"schemas": "list:any"}}},
+         options={"opaque_ctor": ["ToolSchema"]}, ensures={})
+
+
 def native_replay(rep):
     """registries are symbolic maps: the witness is searched for over small capability sets and all entry points on the real code"""
     import os, sys
